@@ -74,6 +74,17 @@ type he2eSpec struct {
 	w      int
 	keep   bool
 	seed   int64
+	// fault ops (eng_http_e2e_fault.go): 'd' the backend dies after faultAt bytes of its answer body, 'q' after faultAt
+	// wire bytes of the request body (no answer), 'w' it stops after faultAt bytes and the WORK CONNECTION is killed,
+	// 'u' the user dies after faultAt bytes of its request body
+	fault     byte
+	faultAt   int
+	wrote     chan struct{} // 'w': closed when the faultAt bytes are written
+	wroteOnce sync.Once
+	// long-lived exchanges (op hl): "ch" / "eof": header block + first half of the body, the rest after release;
+	// "poll": nothing before release
+	stream  string
+	release chan struct{} // closed by the op when the held exchanges may end (waited for with a bound)
 }
 
 type he2eSeen struct {
@@ -97,7 +108,8 @@ type he2ePair struct {
 	svr     *server.Service
 	cli     *client.Service
 	vport   int
-	sport   int // vhost HTTPS port
+	sport   int        // vhost HTTPS port
+	relay   *he2eRelay // no tcpMux: frpc reaches frps through this relay (work connections can be killed)
 	proxies map[string]*he2eProxy
 	keys    []string
 	user    net.Conn
@@ -259,6 +271,22 @@ func he2eServe(key string, c net.Conn) {
 			}
 		}
 		seen.whole = true
+		if fs := he2eFaultSpec(seen.op); fs != nil && fs.fault == 'q' && (chunked || cl >= 0) {
+			// this backend dies while the request body is still coming in
+			seen.fr, seen.whole = "cl", false
+			if chunked {
+				seen.fr = "ch"
+			}
+			_ = c.SetReadDeadline(time.Now().Add(2 * time.Second))
+			b := make([]byte, fs.faultAt)
+			n, _ := io.ReadFull(br, b)
+			seen.body = b[:n]
+			select {
+			case he2eSeenCh <- seen:
+			default:
+			}
+			return
+		}
 		switch {
 		case chunked:
 			seen.fr = "ch"
@@ -289,6 +317,10 @@ func he2eServe(key string, c net.Conn) {
 			}
 		}
 		if !seen.whole || spec == nil || spec.id != seen.op {
+			return
+		}
+		if spec.fault == 'd' || spec.fault == 'w' || spec.stream != "" {
+			he2eServeSpecial(c, key, seen, spec)
 			return
 		}
 		if seen.fr != "no" {
@@ -391,6 +423,10 @@ func he2eStartPair(cfg string) (*he2ePair, string) {
 	ccfg := &v1.ClientCommonConfig{}
 	ccfg.ServerAddr = "127.0.0.1"
 	ccfg.ServerPort = scfg.BindPort
+	if !mux {
+		p.relay = he2eNewRelay(scfg.BindPort)
+		ccfg.ServerPort = p.relay.port()
+	}
 	ccfg.Auth.Token = "c02-token"
 	ccfg.Transport.TLS.Enable = &tlsOn
 	ccfg.Transport.TCPMux = &mux
@@ -493,6 +529,9 @@ func he2eStartPair(cfg string) (*he2ePair, string) {
 			}
 			cli.Close()
 			_ = svr.Close()
+			if p.relay != nil {
+				p.relay.ln.Close()
+			}
 			for _, px := range p.proxies {
 				px.ln.Close()
 			}
@@ -723,6 +762,10 @@ func he2eExec(tok []string) string {
 		return he2eHx(kv)
 	case "hc":
 		return he2eHc(kv)
+	case "hf":
+		return he2eHf(kv)
+	case "hl":
+		return he2eHl(kv)
 	}
 	return "badop"
 }
@@ -762,6 +805,16 @@ func he2eGen(rng *rand.Rand, n int, emit func(string)) {
 	op("000", "plain", 1, 1, "none", "POST", "cl", 300000, 0, "ch", 300000, 0, "z", 1)
 	// concurrent rounds: first every kind (plain path, four plugins) with compression on / off on ONE proxy
 	he2eGenRounds(rng, 10, true, emit)
+	// faults mid-exchange and long-lived rounds (eng_http_e2e_fault.go; an RNG of their own): first one answer fault and
+	// one round of 17-24 held streams per kind, a killed work connection, then mixed into the stream below
+	frng := sideRng(0xe2e)
+	allKinds := append([]string{"plain"}, he2ePlugKinds...)
+	for i, kind := range allKinds {
+		he2eGenFault(frng, kind, 'd', emit)
+		he2eGenLong(frng, kind, 17+frng.Intn(8), []string{"ch", "eof", "ch", "poll", "ch"}[i], emit)
+	}
+	he2eGenFault(frng, "plain", 'w', emit)
+	he2eGenFault(frng, pick(frng, he2ePlugKinds[:2]), 'w', emit)
 	smallSizes := []int{0, 1, 24, 100, 4000, he2eSmallBurst - 1, he2eSmallBurst, he2eSmallBurst + 1}
 	sizes := []int{0, 1, 2, 17, 24, 1000, 4095, 4096, 16383, 16384, 16385, 32769, 65537, 200000}
 	for i := 0; i < n; i++ {
@@ -813,6 +866,12 @@ func he2eGen(rng *rand.Rand, n int, emit func(string)) {
 		op(cfg, kind, enc, comp, lim, m, upk, upn, w(), dnk, dnn, w(), pick(rng, []string{"r", "r", "z", "m"}), keep)
 		if i%2 == 1 {
 			he2eGenRounds(rng, 1, false, emit)
+		}
+		if i%3 == 0 {
+			he2eGenFault(frng, pick(frng, allKinds), []byte("dddduuqqw")[frng.Intn(9)], emit)
+		}
+		if i%10 == 5 {
+			he2eGenLong(frng, pick(frng, allKinds), pick(frng, []int{3, 9, 16, 17, 20, 24}), pick(frng, []string{"ch", "ch", "eof", "poll"}), emit)
 		}
 	}
 }
